@@ -166,6 +166,7 @@ Proof.
   pbind ltac:(apply parses_ue_of_se).
   pbind ltac:(apply parses_ue_of_se).
   pbind ltac:(apply parses_ue).
+  replace (255 <? lenN (offset_for_ref_frame v)) with false by lia.
   plast ltac:(apply (parses_rep_n raw (rd_ue BR) se_bits se_code (offset_for_ref_frame v));
               [reflexivity | unfold loop_bound; lia | intros; apply parses_ue_of_se]).
   apply parses_ret.
